@@ -637,5 +637,5 @@ func dedup(xs []string) []string {
 
 func newExec(eng *Engine, fn *ssa.Function, c *FuncContract) *Exec {
 	return &Exec{usedInv: map[string]bool{}, specMemo: map[string]Value{}, eng: eng, topFn: fn, topC: c, assumeSeen: map[int]bool{}, warnSeen: map[string]bool{}, nameCount: map[string]int{},
-		abstracted: map[string]bool{}, inlined: map[string]bool{}, usedContr: map[string]bool{}, assumedTerm: map[string]bool{}, assertHit: map[int]bool{}, budget: 6000}
+		abstracted: map[string]bool{}, inlined: map[string]bool{}, usedContr: map[string]bool{}, assumedTerm: map[string]bool{}, assertHit: map[int]bool{}, pointSetHit: map[int]bool{}, budget: 6000}
 }
